@@ -58,17 +58,17 @@ TEXT.update({
             "design_ref": "DESIGN.md section 5 C15", "level_note": _MEM_NOTE,
             "level_text": "Exploration, exhaustive within n <= 9 (quick) / 12 (thorough): every subset of entries to remove, including none, all, the ends, alternating."},
     "C16": {"technique": "fault enumeration: panic injected at the n-th user callback of every class for every (state, operation); post-panic structure gate, recorded-size sum, ledger, further use; ASan + Miri",
-            "design_ref": "DESIGN.md section 5 C16", "level_note": _MEM_NOTE + " States are sampled (small random histories); the crash points of each sampled (state, operation) are exhaustive. After a panic inside mutate the further use does not re-mutate that entry (its actual size may legitimately differ from its record; C16 speaks of recorded sizes).",
+            "design_ref": "DESIGN.md section 5 C16", "level_note": _MEM_NOTE + " States are sampled (small random histories); the crash points of each sampled (state, operation) are exhaustive. After a panic inside mutate the further use mutates that very entry again (this is how finding D8 surfaced); refused allocations inside reserve/shrink/insert are injected alone and together with every Hash panic position.",
             "level_text": "Fault enumeration over crash points: every callback index of every callback class of each sampled (state, operation) pair; 5*10^5 injected panics per quick run natively plus sanitizer/interpreter runs on the same enumeration."},
     "C17": {"technique": "fault enumeration: mem::forget after every call-string prefix of every iterator kind; ledger + structure gate + further use; ASan (no LSan) and Miri (ignore leaks)",
             "design_ref": "DESIGN.md section 5 C17", "level_note": _MEM_NOTE,
             "level_text": "Fault enumeration: the 'fault' is the program leaking the iterator; all leak points for lengths 0..=6 (quick) / 0..=9 (thorough) are enumerated."},
-    "C18": {"technique": "run-time read-out of the compile-time auto-trait table via a trait probe over a 4x4x4 witness matrix; cross-thread use (also with non-'static parameters in a separate exercise program whose failure to compile is the verdict) under Miri's race detector",
-            "design_ref": "DESIGN.md section 5 C18", "level_note": "PARTIAL: only the Send/Sync sentence is decided. The borrowing sentence (references and borrowing iterators keep the cache borrowed) is about programs the compiler rejects; lifetimes are erased before anything runs, so runtime monitoring cannot witness it; a compile-fail probe would be a different technique and is not used. A lifetime-loosening change is invisible to this check.",
+    "C18": {"technique": "run-time read-out of the compile-time auto-trait table via a trait probe over a 4x4x4 witness matrix (LruCache) and a 4x4 matrix for the seven iterator types; cross-thread use (also with non-'static parameters in a separate exercise program whose failure to compile is the verdict) under Miri's race detector; auxiliary: must-not-compile programs judged by the borrow checker",
+            "design_ref": "DESIGN.md section 5 C18", "level_note": "PARTIAL: the Send/Sync sentence is decided by the run-time read-out (LruCache: exact table; the seven iterator types: soundness implications). The borrowing sentence (references and borrowing iterators keep the cache borrowed) is about programs the compiler rejects; lifetimes are erased before anything runs, so runtime monitoring proper cannot witness it. As an auxiliary observation - the compiler is the only monitor there is for this sentence - 20 small programs that keep a reference, iterator, hasher or closure borrow while they mutate, move or drop the cache are compiled (package harness_neg) and each must be rejected by the borrow checker; one that is accepted is reported. This samples the sentence (one program per reference-returning method), it does not decide it for all programs.",
             "level_text": "Other: the truth table is complete for the witness matrix (64 instantiations x 2 traits); the generic 'whenever' direction is sampled by those witnesses, which is what an execution-based technique can do for a compile-time property."},
     "C19": {"technique": "MMU write trap (mprotect-ed arena) under every &self operation on 1 and 4 threads + byte hash; Miri and ThreadSanitizer race detection on reader threads",
             "design_ref": "DESIGN.md section 5 C19", "level_note": "Trusted base: the harness' arena allocator and SIGSEGV handler, the kernel's page protection; Miri/TSan as race detectors. A store whose value equals the old one can be removed by the optimiser (then the binary really does not write); the trap sees what the release build executes, Miri sees the unoptimised MIR.",
-            "level_text": "Exploration over a pool of cache states (empty, single, tombstoned, just reallocated, constant hasher, up to ~50 entries) x every shared-reference operation x every key argument present or absent; because a read-only operation set cannot race, the trap decides the 'every interleaving' clause on the states explored."},
+            "level_text": "Exploration over a pool of cache states (empty, single, tombstoned, just reallocated, constant hasher, up to ~50 entries; every 25th state 300-6250 entries under colliding hashers; only a read-only hook touches the cache before the protected phase) x every shared-reference operation x every key argument present or absent; because a read-only operation set cannot race, the trap decides the 'every interleaving' clause on the states explored."},
     "C20": {"technique": "runtime monitor: per-call Hash::hash counter vs bound 2 + departures (+ held on rebuild)",
             "design_ref": "DESIGN.md section 5 C20", "level_note": _HIST_NOTE,
             "level_text": "Exploration across cache sizes; a rehash-per-access or rescan shows as a count growing with the cache size."},
